@@ -431,6 +431,25 @@ func registerLibIntrinsics() {
 	I["errors.Is"] = func(in *Interp, fr *frame, args []Value) (Value, bool) {
 		target := errObj(args[1])
 		cur := args[0]
+		// a syscall.Errno target (e.g. syscall.EADDRINUSE): matched against the errno the
+		// environment attached to the error chain
+		if it, ok := args[1].(Iface); ok && it.T != nil && it.T.String() == "syscall.Errno" {
+			want, _ := it.V.(Int)
+			for i := 0; i < 50; i++ {
+				o := errObj(cur)
+				if o == nil {
+					return false, true
+				}
+				if e, ok := o.F["errno"].(Int); ok && e == want {
+					return true, true
+				}
+				cur = o.F["wrapped"]
+				if cur == nil {
+					return false, true
+				}
+			}
+			return false, true
+		}
 		for i := 0; i < 50; i++ {
 			o := errObj(cur)
 			if o == nil {
@@ -775,6 +794,44 @@ func registerLibIntrinsics() {
 		}
 		return nil, false
 	}
+	fmtU := func(in *Interp, fr *frame, v Value, base int, signed bool) (Str, bool) {
+		t := types.Typ[types.Uint64]
+		if signed {
+			t = types.Typ[types.Int64]
+		}
+		switch x := v.(type) {
+		case Int:
+			if signed {
+				return CStr(strconv.FormatInt(int64(x), base)), true
+			}
+			return CStr(strconv.FormatUint(uint64(x), base)), true
+		case *Term:
+			if base != 10 {
+				in.unsupported("integer formatting in base %d of a symbolic value", base)
+			}
+			return in.fmtIntStr(x, t, "%d"), true
+		}
+		return Str{}, false
+	}
+	I["strconv.FormatUint"] = func(in *Interp, fr *frame, args []Value) (Value, bool) {
+		s, ok := fmtU(in, fr, args[0], in.concreteInt(fr, args[1], "FormatUint base"), false)
+		return s, ok
+	}
+	appendNum := func(signed bool) intrinsicFn {
+		return func(in *Interp, fr *frame, args []Value) (Value, bool) {
+			dst, ok := in.sliceToSym(fr, args[0])
+			if !ok {
+				return nil, false
+			}
+			s, ok := fmtU(in, fr, args[1], in.concreteInt(fr, args[2], "strconv.Append base"), signed)
+			if !ok {
+				return nil, false
+			}
+			return SymBytes{s: concatStr(dst, s)}, true
+		}
+	}
+	I["strconv.AppendUint"] = appendNum(false)
+	I["strconv.AppendInt"] = appendNum(true)
 	I["strconv.Itoa"] = func(in *Interp, fr *frame, args []Value) (Value, bool) {
 		switch x := args[0].(type) {
 		case Int:
@@ -1083,6 +1140,41 @@ func registerLibIntrinsics() {
 			return Slice{}, true
 		}
 		return strSliceValue(res), true
+	}
+	// timers: a channel that becomes ready when "enough time has passed" (see selectOp)
+	newTimerChan := func(in *Interp) *Chan {
+		in.chanSeq++
+		o := in.newObj("timer")
+		o.F["state"] = "pending"
+		return &Chan{id: 100000 + in.chanSeq, timer: o}
+	}
+	I["time.After"] = func(in *Interp, fr *frame, args []Value) (Value, bool) {
+		return newTimerChan(in), true
+	}
+	I["time.NewTimer"] = func(in *Interp, fr *frame, args []Value) (Value, bool) {
+		tt := in.namedType("time", "Timer")
+		cell := new(Value)
+		st := in.zero(tt).(Struct)
+		ch := newTimerChan(in)
+		st[structFieldIndex(tt.Underlying().(*types.Struct), "C")] = ch
+		*cell = st
+		in.side[cell] = ch.timer
+		return cell, true
+	}
+	I["(*time.Timer).Stop"] = func(in *Interp, fr *frame, args []Value) (Value, bool) {
+		o := in.sideObj(args[0], "timer")
+		was, _ := o.F["state"].(string)
+		if was == "pending" {
+			o.F["state"] = "stopped"
+			return true, true
+		}
+		return false, true
+	}
+	I["(*time.Timer).Reset"] = func(in *Interp, fr *frame, args []Value) (Value, bool) {
+		o := in.sideObj(args[0], "timer")
+		was, _ := o.F["state"].(string)
+		o.F["state"] = "pending"
+		return was == "pending", true
 	}
 	I["time.Sleep"] = func(in *Interp, fr *frame, args []Value) (Value, bool) {
 		in.preempt()
